@@ -316,6 +316,17 @@ fn main() {
         check_value_list(&mut st, &l, "cuesheet-limits", i < 4);
     }
 
+    // the two icon picture types together (one of each is legal, in either order, with other pictures around them)
+    for i in 0..(if thorough { 60 } else { 12 }) {
+        let mut l = vec![streaminfo_only(&mut rng)];
+        let a = Block::Picture(gen_picture(&mut rng, Some(PictureType::GeneralFileIcon)));
+        let b = Block::Picture(gen_picture(&mut rng, Some(PictureType::Png32x32)));
+        if i % 3 == 2 { l.push(Block::Picture(gen_picture(&mut rng, Some(PictureType::FrontCover)))); }
+        if i % 2 == 0 { l.push(a); l.push(b); } else { l.push(b); l.push(a); }
+        if i % 4 == 3 { l.push(Block::Picture(gen_picture(&mut rng, Some(PictureType::FrontCover)))); }
+        check_value_list(&mut st, &l, "one-icon-of-each-kind", i < 4);
+    }
+
     // ---------------------------------------------------------------- (2) rule-breaking lists
     let mut rng = Rng::new(seed, 0xC11B);
     let n_rules = if thorough { 1500 } else { 250 };
@@ -435,6 +446,37 @@ fn main() {
             b.extend(rng.bytes(extra));
         }
         check_encoding(&mut st, &b, "reserved-fields-randomised");
+    }
+
+    // (3b) rule-breaking SECTIONS assembled from individually written blocks (the writer refuses the lists, so the
+    // bytes are spliced): the reader must refuse them too; if it accepts one, check_encoding reports that the
+    // accepted section cannot be written again
+    {
+        let mut rng = Rng::new(seed, 0xC11E);
+        let block_bytes = |b: &Block, rng: &mut Rng| -> Option<Vec<u8>> {
+            match run_write(&[streaminfo_only(rng), b.clone()]) { Out::Ok(bytes) if bytes.len() > 42 => Some(bytes[42..].to_vec()), _ => None }
+        };
+        for i in 0..(if thorough { 200 } else { 40 }) {
+            let (x, y, what) = match i % 4 {
+                0 => (Block::Picture(gen_picture(&mut rng, Some(PictureType::GeneralFileIcon))), Block::Picture(gen_picture(&mut rng, Some(PictureType::GeneralFileIcon))), "two-general-icons"),
+                1 => (Block::Picture(gen_picture(&mut rng, Some(PictureType::Png32x32))), Block::Picture(gen_picture(&mut rng, Some(PictureType::Png32x32))), "two-png-icons"),
+                2 => (Block::SeekTable(gen_seektable(&mut rng)), Block::SeekTable(gen_seektable(&mut rng)), "two-seektables"),
+                _ => (Block::VorbisComment(gen_vorbis(&mut rng)), Block::VorbisComment(gen_vorbis(&mut rng)), "two-vorbis-comments"),
+            };
+            let (Some(mut bx), Some(by)) = (block_bytes(&x, &mut rng), block_bytes(&y, &mut rng)) else { continue };
+            let Out::Ok(head) = run_write(&[streaminfo_only(&mut rng)]) else { continue };
+            let mut f = head.clone();
+            f[4] &= 0x7F; // STREAMINFO is no longer the last block
+            bx[0] &= 0x7F;
+            f.extend_from_slice(&bx);
+            f.extend_from_slice(&by); // keeps its last-block flag
+            st.bump(&format!("spliced:{}", what));
+            if let Out::Ok(l) = run_read(&f) {
+                st.bump(&format!("spliced-accepted:{}", what));
+                let _ = l;
+            }
+            check_encoding(&mut st, &f, what);
+        }
     }
 
     // ---------------------------------------------------------------- (4) probes
